@@ -70,15 +70,16 @@ impl Drop for CounterGuard {
 }
 
 fn worker(
+    first: BoxedDispatchable,
+    guard: CounterGuard,
     receiver: Receiver<BoxedDispatchable>,
-    counter: Arc<AtomicUsize>,
     timeout: Duration,
 ) -> impl FnOnce() {
     move || {
-        #[cfg(feature = "verif")]
-        crate::verif::point(31);
-        counter.fetch_add(1, Ordering::AcqRel);
-        let _guard = CounterGuard(counter);
+        let _guard = guard;
+        // The job this worker was started for is handed over directly: a rendezvous through
+        // the channel could be missed if the worker timed out before the dispatcher sent it.
+        first.run();
         while let Ok(f) = receiver.recv_timeout(timeout) {
             f.run()
         }
@@ -118,31 +119,49 @@ impl AsyncifyPool {
             Ok(_) => Ok(()),
             Err(e) => match e {
                 TrySendError::Full(f) => {
-                    #[cfg(feature = "verif")]
-                    crate::verif::point(32);
                     if self.thread_limit == 0 {
                         panic!("the thread pool is needed but no worker thread is running");
-                    } else if self.counter.load(Ordering::Acquire) >= self.thread_limit {
-                        // SAFETY: we can ensure the type
-                        Err(DispatchError(*unsafe {
-                            Box::from_raw(Box::into_raw(f).cast())
-                        }))
-                    } else {
-                        #[cfg(not(feature = "verif"))]
-                        std::thread::spawn(worker(
-                            self.receiver.clone(),
-                            self.counter.clone(),
-                            self.recv_timeout,
-                        ));
-                        #[cfg(feature = "verif")]
-                        crate::verif::spawn(worker(
-                            self.receiver.clone(),
-                            self.counter.clone(),
-                            self.recv_timeout,
-                        ));
-                        self.sender.send(f).expect("the channel should not be full");
-                        Ok(())
                     }
+                    // Reserve the worker's slot here rather than in the worker itself:
+                    // several dispatchers sharing the pool may get here at the same time.
+                    #[cfg(feature = "verif")]
+                    crate::verif::point(32);
+                    let mut current = self.counter.load(Ordering::Acquire);
+                    loop {
+                        if current >= self.thread_limit {
+                            // SAFETY: we can ensure the type
+                            return Err(DispatchError(*unsafe {
+                                Box::from_raw(Box::into_raw(f).cast())
+                            }));
+                        }
+                        #[cfg(feature = "verif")]
+                        crate::verif::point(31);
+                        match self.counter.compare_exchange_weak(
+                            current,
+                            current + 1,
+                            Ordering::AcqRel,
+                            Ordering::Acquire,
+                        ) {
+                            Ok(_) => break,
+                            Err(actual) => current = actual,
+                        }
+                    }
+                    let guard = CounterGuard(self.counter.clone());
+                    #[cfg(not(feature = "verif"))]
+                    std::thread::spawn(worker(
+                        f,
+                        guard,
+                        self.receiver.clone(),
+                        self.recv_timeout,
+                    ));
+                    #[cfg(feature = "verif")]
+                    crate::verif::spawn(worker(
+                        f,
+                        guard,
+                        self.receiver.clone(),
+                        self.recv_timeout,
+                    ));
+                    Ok(())
                 }
                 TrySendError::Disconnected(_) => {
                     unreachable!("receiver should not all disconnected")
